@@ -5,7 +5,11 @@ import os
 VERIF = os.path.dirname(os.path.dirname(os.path.abspath(__file__)))
 
 CHECKS = {}      # filled by register()
-NOT_APPLICABLE = {}
+NOT_APPLICABLE = {
+    "C14": "The property is defined by seven external SQL grammars/engines whose only executable oracle in this sandbox is sqlglot; an executable Gallina model able to express 'syntactically valid in BigQuery/Snowflake/ClickHouse/...' would "
+           "have to contain those grammars and sqlglot's printers, nothing in /repo could be tied to it, and deciding it by sqlglot differential testing alone would be a change of technique (DESIGN.md section 9). "
+           "The DuckDB branches of sidemantic's own dialect-dependent code are covered by C02/C07.",
+}
 
 
 def register(pid, text, note, technique, design_ref):
@@ -98,6 +102,16 @@ register("C07",
          "the default-dimension function vs its model; additivity and the iff re-checked directly on the implementation.",
          "Trusted: Coq kernel (vm_compute sweeps); Base/Calendar.v hand-written, tied to DuckDB by correspondence; Model/TimeDim.v hand-written model; extraction (ExtrOcamlBasic). Only the completeness half of the default-dimension iff is checked by the oracle rather than proved. No axioms.",
          "Coq proof (calendar floor for all Z, regrouping induction) + correspondence vs DuckDB and the generator", "DESIGN.md section 6/C07")
+
+register("C17",
+         "Machine-checked Coq theorems for inner results of ANY length and any number of groups: a cumulative metric's window value at period t, within each combination of the other requested dimensions separately, is its aggregate over exactly "
+         "the base values of the periods up to t (running), of those within the declared trailing RANGE, or of those in the same enclosing grain period (C17_cumulative; SQL window semantics = sorted partitions, positional ROWS frames, value-based RANGE frames); "
+         "on a series that is gap-free within every combination LAG k is the base value k periods earlier and the period-over-period metric is the declared calculation on it (C17_lag, C17_time_comparison); "
+         "the offset table regenerated from _calculate_lag_offset on every run is exact on the matching-granularity entries and every offset is >= 1 (C17_offsets_*); the former un-partitioned window is refuted by a witness. "
+         "Model/Window.v is hand-written and tied to generator.py + DuckDB by executing generated daily/weekly/monthly series on both; the same columns are compared with the reference period definitions (property oracle).",
+         "Trusted: Coq kernel; gen_lagoffset translator (fail-closed, validated on the whole name domain each run); Model/Window.v hand-written (modelled-not-verified), tied by differential testing; DuckDB window functions as oracle. "
+         "Lenient readings stated: trailing window = the RANGE the code declares (t-N..t), offsets that do not divide the period are the code's documented approximations; only day-unit windows are modelled. No axioms.",
+         "Coq proof (sorted-partition / frame lemmas, gap-free LAG induction, aggregate permutation invariance) + regenerated offset table; model/implementation correspondence on generated series", "DESIGN.md section 6/C17")
 
 PENDING = "check not built yet in this revision (see DESIGN.md section 10 build order)"
 
